@@ -240,6 +240,24 @@ def r3(c):
         outer = [x for x in walk_no_nested(md) if isinstance(x, ast.For) and norm(x.iter) == "args"]
         ok = ok and bool(outer)
     c.check("C10.R3", ok, repo.loc(lm, md), "merge_dicts/assigns-every-key", "merge_dicts may drop a key of one of its arguments", key_text="merge-dicts")
+    # list values are concatenated item for item: parallel lists (generator_names / cant_delete of a merged ACL rule) must stay aligned
+    md_raw = repo.func("annet.annlib.lib", "merge_dicts", canon=False)
+    list_arms = [b for n in ast.walk(md_raw) if isinstance(n, ast.If) and "isinstance" in norm(n.test) and "list" in norm(n.test) for b in n.body]
+    if not list_arms:
+        raise AnchorError("merge_dicts: the arm uniting list values not found")
+    flt = [n for b in list_arms for n in ast.walk(b) if isinstance(n, (ast.ListComp, ast.GeneratorExp, ast.SetComp)) and any(g.ifs for g in n.generators)] + \
+          [n for b in list_arms for n in ast.walk(b) if isinstance(n, ast.Call) and call_name(n) in ("set", "frozenset", "dict.fromkeys", "uniq", "filter") and n.args]
+    c.check("C10.R3", not flt, repo.loc(lm, flt[0] if flt else md), "merge_dicts/lists-item-for-item", f"`{norm(flt[0])[:60] if flt else ''}` drops items while uniting list values: lists that are "
+            "parallel by position (generator names and their cant_delete flags) get different lengths, so the exclusivity check pairs names with the wrong flags", key_text="merge-dicts-filter")
+    # multi-line yields keep their relative indentation (it is block nesting): common margin removed, rows not stripped one by one
+    bm = repo.module("annet.generators.base")
+    ss = repo.func("annet.generators.base", "_split_and_strip", canon=False)
+    ded = [x for x in calls_in(ss) if call_name(x).endswith("dedent")]
+    per_row = [n for n in ast.walk(ss) if isinstance(n, (ast.ListComp, ast.GeneratorExp)) and isinstance(n.elt, ast.Call) and isinstance(n.elt.func, ast.Attribute)
+               and n.elt.func.attr in ("strip", "lstrip")] + \
+              [n for n in ast.walk(ss) if isinstance(n, ast.Call) and call_name(n) == "map" and n.args and norm(n.args[0]) in ("str.strip", "str.lstrip")]
+    c.check("C10.R3", bool(ded) and not per_row, repo.loc(bm, per_row[0] if per_row else ss), "_split_and_strip/relative-indent", "a multi-line yield is not dedented as a whole (or its rows are "
+            "stripped one by one): the lines lose the nesting they were written with and land at the enclosing block's level — outside the block path they were yielded in", key_text="dedent")
 
 
 def r4(c, rid="C10.R4"):
